@@ -559,3 +559,33 @@ def rule_contiguity_consistent(col, facts):
         col.check(R, "%s:contiguous-when-buffer-is" % name, not bad,
                   "for (component separator flag set, separator character) = %s the buffer is contiguous (digits are not counted) but the iterator is not (it reads the digit counter): every input is reported Empty by the integer parser" % [("set" if a else "clear", "none" if b == 0 else "'_'") for a, b in bad], facts.const_loc(consts[name]["path"]))
     col.floor(R, "component iterators compared with the buffer", n, 3)
+
+
+def rule_run_skip_bound(col, facts):
+    """SIB-run (bound): the consecutive-separator look-around skips a whole run with `while index < buffer.len() &&
+    is_separator(buffer[index])`.  All of these loops (22 expansions) compare the index itself with the length;
+    `index + 1 < len` stops one byte early, so a run that ends the buffer keeps its last separator as an
+    "invalid digit" while the same run followed by another byte is skipped - the partial parser then reports a
+    prefix the complete parser rejects."""
+    if "format" not in facts.config:
+        return
+    R = "SIB-run"
+    n = 0
+    bad = 0
+    where = "lexical-util/src/skip.rs"
+    for f in facts.all_fns():
+        if f.crate != "lexical_util" or "skip::" not in f.short:
+            continue
+        for i, b in enumerate(f.blocks):
+            if not f.live(i) or b["t"]["k"] != "switch":
+                continue
+            e = strip_casts(op_expr(f, b["t"]["d"]))
+            if e[0] == "bin" and e[1] in ("Lt", "Le", "Gt", "Ge") and any(last_seg(c[1]) == "get_buffer" for c in expr_calls(e)) and any(last_seg(c[1]) == "len" for c in expr_calls(e)):
+                n += 1
+                lhs = strip_casts(e[2])
+                if not (e[1] == "Lt" and lhs[0] in ("var", "arg")):
+                    bad += 1
+                    where = f.loc(b["ts"])
+    col.check(R, "peek_n:loop-bound", bad == 0,
+              "%d of %d run-skipping loops do not compare the bare index with the buffer length (`index + 1 < len` stops one separator short of the end of the buffer)" % (bad, n), where)
+    col.floor(R, "run-skipping loop bounds", n, 20)
